@@ -11,6 +11,7 @@ fn groups_for(prop: &str, ctx: &Ctx) -> Vec<Box<dyn Group>> {
     use groups::*;
     match prop {
         "C19" => vec![Box::new(c19::Split), Box::new(c19::Msg), Box::new(c19::Dispatch::new(ctx))],
+        "C09" => vec![Box::new(c09::Reply), Box::new(c09::Tiling)],
         _ => vec![],
     }
 }
